@@ -151,7 +151,11 @@ async def check_case(ctx, case):
 
         known_table = {k: v for k, v in table.items() if v is not None}
         cer = E.make_cer({}, {}, {}, packages=known_table)
-        mode = rng.choice(["hardcoded", "cer", "one-table-provider", "cer-resolver-without-format", "json-file-list"])
+        # the result of ANOTHER message, built afterwards (same package keys, other expressions; it knows the package this one lacks):
+        # it is never handed to anything
+        E.make_cer({}, {}, {}, packages={**{k: "[499]" for k in known_table}, **{u: "[498]" for u in unknown}}, fill_in_place=True)
+        ctx.count("results_of_other_messages_built_in_between")
+        mode = rng.choice(["hardcoded", "hardcoded-mscons", "cer", "one-table-provider", "cer-resolver-without-format", "json-file-list"])
         ctx.count("shipped_resolver_mode:" + mode)
         shipped = await H.with_shipped_evaluators(mode, cer, lambda: parse_expression_including_unresolved_subexpressions(s, resolve_packages=True, replace_time_conditions=True))
         ctx.evaluation()
